@@ -130,3 +130,119 @@ def install_contains_monitor(obs):
     import regions.shapes.annulus as ann
     n += wrap_method(ann.AnnulusPixelRegion, 'contains', make)
     obs.count('monitors_installed:contains', n)
+
+
+# ---------------------------------------------------------------------------
+# C04: bounding boxes
+def _harness_guard(obs, fn, *a):
+    try:
+        fn(*a)
+    except Exception:
+        import traceback
+        obs.count('harness_errors')
+        obs.notes.setdefault('harness_error_samples', [])
+        if len(obs.notes['harness_error_samples']) < 5:
+            obs.notes['harness_error_samples'].append({'traceback': traceback.format_exc()[-2000:]})
+
+
+def judge_bbox(obs, region, bbox, exact=False):
+    """Judge one observed bounding_box value."""
+    import regions
+    cname = type(region).__name__
+    obs.count('monitor:bbox:' + cname)
+    if not isinstance(bbox, regions.RegionBoundingBox):
+        obs.violation('bbox-type', f'{cname}.bounding_box is {type(bbox).__name__}')
+        return
+    b = (bbox.ixmin, bbox.ixmax, bbox.iymin, bbox.iymax)
+    if cname == 'CompoundPixelRegion':
+        b1, b2 = region.region1.bounding_box, region.region2.bounding_box
+        exp = (min(b1.ixmin, b2.ixmin), max(b1.ixmax, b2.ixmax), min(b1.iymin, b2.iymin), max(b1.iymax, b2.iymax))
+        obs.check(b == exp, 'compound-bbox-not-union', f'compound box {b} is not the union {exp} of the operand boxes', 'bbox-compound')
+        return
+    ext = geom.true_extent(region)
+    xmin, xmax, ymin, ymax, tol = ext
+    if exact or getattr(region, '_vmon_exact', False):
+        tol = 0.0          # all arithmetic exact (dyadic parameters, zero angle): alignments judged to the ulp
+    else:
+        tol = tol + 1e-12 * max(xmax - xmin, ymax - ymin)
+    # enclosure: the pixel-edge extent of the box covers the true extent
+    for lo, ilo, hi, ihi, ax in ((xmin, bbox.ixmin, xmax, bbox.ixmax, 'x'), (ymin, bbox.iymin, ymax, bbox.iymax, 'y')):
+        e_lo, e_hi = ilo - 0.5, ihi - 0.5
+        if e_lo > lo + tol:
+            obs.violation('bbox-not-enclosing', f'{cname}: box {b} lower {ax} edge {e_lo} is above the true extent {lo!r} (tol {tol:.3g})',
+                          region=repr(region)[:300])
+        elif e_lo > lo - tol:
+            obs.skip(1, 'bbox')
+        else:
+            obs.ok(1, 'bbox-enclose')
+        if e_hi < hi - tol:
+            obs.violation('bbox-not-enclosing', f'{cname}: box {b} upper {ax} edge {e_hi} is below the true extent {hi!r} (tol {tol:.3g})',
+                          region=repr(region)[:300])
+        elif e_hi < hi + tol:
+            obs.skip(1, 'bbox')
+        else:
+            obs.ok(1, 'bbox-enclose')
+        # minimality (non-empty boxes): border row/column reached by the extent
+        if ihi > ilo:
+            if lo >= ilo + 0.5 + tol:
+                obs.violation('bbox-not-minimal', f'{cname}: box {b} first {ax} row/column [{ilo - 0.5}, {ilo + 0.5}] is not reached by the true extent starting at {lo!r}',
+                              region=repr(region)[:300])
+            elif lo > ilo + 0.5 - tol:
+                obs.skip(1, 'bbox')
+            else:
+                obs.ok(1, 'bbox-minimal')
+            if hi <= ihi - 1.5 - tol:
+                obs.violation('bbox-not-minimal', f'{cname}: box {b} last {ax} row/column [{ihi - 1.5}, {ihi - 0.5}] is not reached by the true extent ending at {hi!r}',
+                              region=repr(region)[:300])
+            elif hi < ihi - 1.5 + tol:
+                obs.skip(1, 'bbox')
+            else:
+                obs.ok(1, 'bbox-minimal')
+        else:
+            # an empty box is only right for a zero-width extent sitting on a pixel edge
+            obs.check(hi - lo <= 2 * tol, 'bbox-empty-for-extended-shape', f'{cname}: empty box {b} for extent [{lo!r}, {hi!r}] on {ax}', 'bbox-minimal')
+
+
+def install_bbox_monitor(obs):
+    def make(orig):
+        @functools.wraps(orig)
+        def bounding_box(self):
+            result = orig(self)
+            _harness_guard(obs, judge_bbox, obs, self, result)
+            return result
+        return bounding_box
+    import regions.shapes.annulus as ann
+    n = 0
+    for cls in pixel_classes() + [ann.AnnulusPixelRegion]:
+        n += wrap_method(cls, 'bounding_box', make)
+    obs.count('monitors_installed:bounding_box', n)
+
+
+def judge_mask_bbox(obs, region, mask):
+    """mask.bbox is the region's box and confines the data."""
+    bb = region.bounding_box
+    mb = mask.bbox
+    same = (mb.ixmin, mb.ixmax, mb.iymin, mb.iymax) == (bb.ixmin, bb.ixmax, bb.iymin, bb.iymax)
+    obs.check(same, 'mask-bbox-differs', f'{type(region).__name__}: mask.bbox {mb!r} differs from region.bounding_box {bb!r}', 'mask-bbox')
+    obs.check(tuple(np.shape(mask.data)) == tuple(bb.shape), 'mask-shape-differs',
+              f'{type(region).__name__}: mask data shape {np.shape(mask.data)} but box shape {bb.shape}', 'mask-bbox')
+
+
+def install_to_mask_monitor(obs, judges):
+    """judges: list of callables (obs, region, mode, subpixels, mask)."""
+    def make(orig):
+        @functools.wraps(orig)
+        def to_mask(self, *a, **k):
+            result = orig(self, *a, **k)
+            names = ('mode', 'subpixels')
+            kw = dict(zip(names, a))
+            kw.update(k)
+            for j in judges:
+                _harness_guard(obs, j, obs, self, kw.get('mode', 'center'), kw.get('subpixels', None), result)
+            return result
+        return to_mask
+    import regions.shapes.annulus as ann
+    n = 0
+    for cls in pixel_classes() + [ann.AnnulusPixelRegion]:
+        n += wrap_method(cls, 'to_mask', make)
+    obs.count('monitors_installed:to_mask', n)
